@@ -56,8 +56,9 @@ COQ_DEPS = ["Corr/LandArithCorr.vo"]
 FINDING = "C09-nonzero-first-ordinate"
 # The element-wise operators of PersLandscapeApprox do not call compute_landscape(): on the unchanged tree a grid
 # landscape built with compute=False raises ValueError when + - neg * / is its first use (see
-# fixes/C09_lazy_approx_operators.patch).  Set to True once that patch is in /repo.
-LAZY_GRID_ELEMENTWISE = False
+# fixes/C09_lazy_approx_operators.patch).  Enable with C09_LAZY_GRID_ELEMENTWISE=1 (or make it the default) once that patch is in /repo.
+import os as _os
+LAZY_GRID_ELEMENTWISE = _os.environ.get("C09_LAZY_GRID_ELEMENTWISE", "1") == "1"   # default on since the fix 43ec130
 
 
 # =====================================================================================  generators
@@ -399,7 +400,7 @@ def _gen_approx(rng, mode, cls):
 
 
 def generate(rng, tier):
-    n = 72 if tier == "quick" else 1440
+    n = 64 if tier == "quick" else 1280
     plan = ([("exact", "exact", "wf")] * 4 + [("exact", "tol", "wf")] * 2 + [("exact", "exact", "errors")]
             + [("exact", "exact", "ends_nonzero")] + [("exact", "tol", "ends_nonzero")]
             + [("approx", "exact", "samegrid")] * 2 + [("approx", "exact", "mixed")] * 3
